@@ -352,7 +352,7 @@ func corpus() []Case {
 
 func gen(seed uint64, tier string) []interface{} {
 	r := lib.NewRng(seed)
-	n := 330
+	n := 280
 	if tier == "thorough" {
 		n = 3000
 	}
@@ -547,7 +547,22 @@ func sanitize(c *Case) error {
 	return nil
 }
 
+// runCase runs the script; if the reader loop did not get through its script within the limit (it
+// gives up by itself after 5 s without data, which a badly overloaded machine can provoke) the
+// run is repeated, at most twice, before the failure is reported.
 func runCase(c Case) (lib.Result, error) {
+	var res lib.Result
+	var err error
+	for attempt := 0; attempt < 3; attempt++ {
+		res, err = runOnce(c)
+		if err == nil || !strings.Contains(err.Error(), "did not exhaust its script") {
+			break
+		}
+	}
+	return res, err
+}
+
+func runOnce(c Case) (lib.Result, error) {
 	if err := sanitize(&c); err != nil {
 		return lib.Result{}, err
 	}
@@ -607,7 +622,8 @@ func runCase(c Case) (lib.Result, error) {
 			return res, fmt.Errorf("case %d: group %d is %v, scripted (%d,%d)", c.ID, i, k, c.Groups[i].Off, c.Groups[i].Nchan)
 		}
 	}
-	if err := run.WaitScript(30 * time.Second); err != nil {
+	if err := run.WaitScript(20 * time.Second); err != nil {
+		run.Close()
 		return res, fmt.Errorf("case %d: %v", c.ID, err)
 	}
 	blocks := run.Blocks()
